@@ -147,7 +147,8 @@ def general_reference(lines):
 
 class C11(Property):
     id = "C11"
-    lean_module = "RosuModel.Props.C11Tables"    # imports Props/C11General.lean → Props/C11.lean; all three are in namespace Rosu.C11
+    lean_module = "RosuModel.Props.C11Full"    # imports Props/C11General.lean → Props/C11.lean; all three are in namespace Rosu.C11
+    theorem_modules = ['RosuModel.Props.C11Tables', 'RosuModel.Props.C11Ieee']   # files whose top-level theorems are all audited
     namespace = "Rosu.C11"
     design_ref = "5.11"
     required_theorems = ["value_is_after_first_colon", "no_colon_no_value", "editor_reject_no_effect", "metadata_reject_no_effect",
